@@ -23,7 +23,7 @@ class C17(BaseCheck):
   ID = 'C17'
   RULE = ('case = (combinator, n, success/failure assignment); inside a case every subset '
           'completed before the call (in every order) x every completion order of the rest is '
-          'executed for n<=4 (quick) / n<=6 (thorough), sampled for larger n; Unwrap chains of '
+          'executed for n<=4 (quick) / n<=7 (thorough), sampled for larger n; Unwrap chains of '
           'depth 0-6 with failure at each level and every completion order; ContinueWith/Map '
           'with raising continuations, before/after completion, on_hub or not. The spec is '
           'evaluated after every completion step with the loop run to idle. non-trivial = at '
@@ -41,7 +41,7 @@ class C17(BaseCheck):
 
   def _plan(self, tier):
     plan = []
-    nmax = 4 if tier == 'quick' else 6
+    nmax = 4 if tier == 'quick' else 7
     for kind in ('WhenAll', 'WhenAny'):
       for n in range(1, nmax + 1):
         for outcome in itertools.product('SF', repeat=n):
